@@ -216,7 +216,9 @@ def finish(res, confirm=None):
                 unrepro.append(v)
                 continue
         new.append(v)
-    rdir = os.path.join(VERIF, "replays", res.prop)
+    # runs against another tree (VERIF_REPO: mutants, scratch copies) must not overwrite the evidence of /repo
+    alt = os.path.realpath(build.REPO) != "/repo"
+    rdir = os.path.join(BUILD, "replays-alt", res.prop) if alt else os.path.join(VERIF, "replays", res.prop)
     lines = []
     for key, what, v in hits:
         lines.append("KNOWN-FINDING: property=%s %s [key=%s, %d case(s), e.g. %s]" % (res.prop, what, key, v["count"], v["case"]))
@@ -242,8 +244,9 @@ def finish(res, confirm=None):
                    traces_validated_against_impl=int(res.traces or 0))
     ev = dict(property_id=res.prop, tier=res.tier, seed=SEED, level=res.level, coverage=cov,
               assumptions=res.assumptions, wall_s=round(time.time() - res.t0, 2), violations=len(new))
-    os.makedirs(os.path.join(VERIF, "evidence"), exist_ok=True)
-    with open(os.path.join(VERIF, "evidence", res.prop + ".json"), "w") as f:
+    evdir = os.path.join(BUILD, "evidence-alt") if alt else os.path.join(VERIF, "evidence")
+    os.makedirs(evdir, exist_ok=True)
+    with open(os.path.join(evdir, res.prop + ".json"), "w") as f:
         json.dump(ev, f, indent=1, default=str)
     for ln in lines:
         print(ln, flush=True)
